@@ -284,8 +284,19 @@ def run_exp(sh, ctx):
 	rng = random.Random(f'C11-{ctx.seed}-{sh["sub"]}')
 	for wi in range(sh['nworlds']):
 		w = W.designed_world(rng, conflict_bias=rng.random() < 0.5, cr_names=sh['cr'])
-		d = w.write_db(ctx.workdir / f'w{wi}')
-		db = ReferenceDatabase.load_from_dir(d)
+		two_sets = rng.random() < 0.3
+		d = w.write_db(ctx.workdir / f'w{wi}', second_genomeset=two_sets)
+		if two_sets:
+			# the file holds a second genome set annotating the same genomes: build the database object through the API
+			from gambit.db.sqla import file_sessionmaker
+			from gambit.db.models import ReferenceGenomeSet
+			from gambit.sigs.base import load_signatures
+			session = file_sessionmaker(d / 'genomes.gdb')()
+			gset = session.query(ReferenceGenomeSet).filter_by(key=w.gset['key']).one()
+			db = ReferenceDatabase(gset, load_signatures(str(d / 'signatures.gs')))
+			ctx.count('worlds_with_second_genome_set')
+		else:
+			db = ReferenceDatabase.load_from_dir(d)
 		try:
 			qs = [np.array(q['sig'], dtype=w.dtype) for q in w.queries]
 			strict = rng.random() < 0.5
@@ -403,7 +414,7 @@ def finalize(merged, tier, seed, inconclusive):
 	c = merged['counters']
 	need = ['format:csv', 'format:json', 'format:archive', 'csv_ok', 'json_ok', 'archive_ok', 'feature:no-prediction', 'feature:unreportable-predicted-taxon', 'feature:failed-strict-result',
 	        'feature:warnings', 'feature:no-source-file', 'feature:with-source-file', 'feature:primary-not-closest', 'chars:comma', 'chars:dquote', 'chars:LF', 'chars:CRLF', 'chars:non-BMP',
-	        'chars:bare-CR', 'via:fileobj', 'via:path', 'pretty:True', 'cli_commands']
+	        'chars:bare-CR', 'worlds_with_second_genome_set', 'via:fileobj', 'via:path', 'pretty:True', 'cli_commands']
 	for n in need:
 		if c.get(n, 0) == 0:
 			inconclusive.append(f'class never observed: {n}')
